@@ -930,6 +930,13 @@ class CeiloChunk(AbstractChunk):
             # Reshape the array in anticipation of the GMM routine ...
             gro_heights = gro_heights.reshape(-1, 1)
 
+            # The hits are not necessarily ordered in time. Since the base heights look back in
+            # time, keep track of the time order of the hits (the same as used by metarize()).
+            in_group = self.data.loc[:, 'group_id'] == self._groups.at[ind, 'cluster_id']
+            gro_time_order = pd.Series(np.arange(in_group.sum()), index=self.data.index[in_group])
+            gro_time_order = gro_time_order[
+                self.data.sort_values('dt').loc[in_group].index].to_numpy()
+
             # Identify the minimum layer separation given the overall group base height
             min_sep = self._get_min_sep_for_height(self.groups.at[ind, 'height_base'])
 
@@ -945,6 +952,7 @@ class CeiloChunk(AbstractChunk):
                     'lookback_perc': self.prms['BASE_LVL_LOOKBACK_PERC'],
                     'height_perc': self.prms['BASE_LVL_HEIGHT_PERC']
                 },
+                time_order=gro_time_order,
                 **self.prms['LAYERING_PRMS']['gmm_kwargs'])
 
             # Add this info to the log
